@@ -74,7 +74,12 @@ def check(ctx, res) -> None:
 
 def _check_main(ctx, res) -> None:
     idx = ctx.idx
-    enc, dec, dnl = idx.need_func(ENC), idx.need_func(DEC), idx.need_func(DECODE_NL)
+    enc, dnl = idx.need_func(ENC), idx.need_func(DECODE_NL)
+    dec = idx.functions.get(DEC)
+    if dec is None and any(isinstance(c.func, ast.Attribute) and c.func.attr == "decode" for c in calls_in(dnl.node)):
+        dec = dnl  # the decoding step folded into its only caller: the function that decodes is the decoder
+    if dec is None:
+        dec = idx.need_func(DEC)
     mod = enc.unit.modname
 
     # ---- R16.1
